@@ -146,6 +146,7 @@ func checkC09(c *Check) {
 		return
 	}
 	p := c.P
+	mapContract(c)
 	dels := []TFact{}
 	for _, f := range t.Of("mapop") {
 		if f.Map == t.SessMap && (f.Method == "DeleteUnsafe" || f.Method == "Delete") {
